@@ -27,6 +27,7 @@ LEAVES = ['div', 'p', 'span', 'li', 'td', 'x-foo', 'ns:tag', 'h1', 'i', 'strong'
 VOIDS = ['br', 'hr', 'x-v', 'wbr']
 STYLES = ['html', 'xhtml', 'xml']
 CONFIGS = [(st, fmt) for st in STYLES for fmt in (True, False)]
+INLINE_LISTS = [[], ['section', 'x-foo', 'div', 'li'], ['a', 'b', 'td'], ['em', 'span', 'p', 'ul', 'table', 'h2', 'ns:ul']]
 
 
 def describe(tier):
@@ -114,11 +115,13 @@ class Mon:
         self.Config = Config
         self.k = 0
 
-    def check(self, abbr, expected, style, fmt, cls, stats=None):
+    def check(self, abbr, expected, style, fmt, cls, stats=None, inline=None):
         ctx = self.ctx
         ctx.ev(cls)
         cfg = {'options': {'output.selfClosingStyle': style, 'output.format': fmt}}
-        case = {'abbr': abbr, 'style': style, 'format': fmt, 'expected': expected}
+        if inline is not None:
+            cfg['options']['inlineElements'] = list(inline)
+        case = {'abbr': abbr, 'style': style, 'format': fmt, 'expected': expected, 'inline': inline}
         ctx.mon('oracle:tag-stream')
         r = core.call(self.expand, abbr, cfg)
         exp_flat = [list(x) for x in ref_tree.flatten(expected, style)]
@@ -178,12 +181,15 @@ def run_one(mon, tokens, rng, variant, cfg_index, cls):
     elems, greps = decorate(tokens, rng, variant)
     abbr = ref_tree.spell(tokens, elems, greps)
     items, stats = ref_tree.build(tokens, iter(elems), iter(greps))
-    expected = ref_tree.unroll(items)
+    # the inline list is an option of the CALL: successive calls of one process use different lists (nothing may stick between them)
+    inline = None if rng.random() < 0.7 else rng.choice(INLINE_LISTS)
+    expected = ref_tree.unroll(items, None, inline)
     style, fmt = CONFIGS[cfg_index % len(CONFIGS)]
     for e in elems:
         if e.name is None:
             mon.ctx.mon('workload:nameless-elements')
-    mon.check(abbr, _json(expected), style, fmt, cls, stats)
+    mon.check(abbr, _json(expected), style, fmt, cls, stats, inline)
+    mon.ctx.state('inline-list', 'default' if inline is None else 'custom:%d' % len(inline))
 
 
 def _json(tree):
@@ -246,7 +252,7 @@ def run_shard(desc, ctx):
 
 
 def replay(case, ctx):
-    Mon(ctx).check(case['abbr'], case['expected'], case['style'], case['format'], 'replay')
+    Mon(ctx).check(case['abbr'], case['expected'], case['style'], case['format'], 'replay', None, case.get('inline'))
 
 
 CLASSIFIERS = {}
